@@ -1,5 +1,6 @@
 import AmVerif.Lemmas.TopoGraph
 import AmVerif.Lemmas.Converge
+import AmVerif.Model.History
 import AmVerif.Lemmas.World
 import AmVerif.Gen.Tables
 /-!
@@ -12,10 +13,17 @@ walks is the exact inverse of the recorded dependencies at all times; a successf
 re-learns the dependency set, a failed one keeps value and dependencies and adds what the failed
 attempt read; events for entries the graph does not know are dropped, all others are kept; events
 sent before `hot_reload` are taken before the update (skeleton of the thread loop).
-**Partial**: the semantic convergence statement ("the cached value equals a fresh load") is decided
-by the correspondence + oracle (`freshall`), not yet by a theorem; known finding F-C05d (an asset
-first loaded *during* a pass) is a counterexample to the unrestricted statement on the current
-tree and is listed in known_findings.json.
+**Semantic convergence** ("the cached value equals a fresh load") is proved for one update pass
+(`C05_pass_converges_partial`, `C05_hot_reload_converges_partial`) from read-set determinacy
+(`C05_read_set_determinacy`): after the pass every registered cached asset is `Settled` — it holds
+what re-evaluating its loader against the new source and the current cache returns, and its node
+holds what that evaluation reads. **Partial**: the unrestricted statement is false of the code and of
+the model in the two order-dependent situations recorded as known findings; they are excluded by
+named hypotheses (`NoMissInPass` for F-C05d, `NoRewireOntoPending` for F-C05e) and each is shown to be
+necessary by a concrete counterexample (`C05_full_statement_false_miss`,
+`C05_full_statement_false_rewire`). Reads under `no_record`, on helper threads, inside
+`catch_unwind(no_record(..))` and through `load_owned` are outside the statement (a tracked hit-only
+run meets none of them), as are assets of types that are not hot-reloaded.
 -/
 namespace AmVerif.Props.C05
 open AmVerif.Gen AmVerif.Model AmVerif.Lemmas.TopoGraph AmVerif.Lemmas.Topo
@@ -124,6 +132,36 @@ theorem C05_failed_reload_keeps (env : Env) (fuel : Nat) (s : St) (key : Key) (c
 
 /-! ## Semantic convergence of one update pass -/
 
+/-- **Read-set determinacy of a reload** (the core lemma, `Lemmas/ReadSet.lean`): if re-evaluating
+the loader of `key` under `(env, s)` is a tracked hit-only run — plain constructors on its path,
+every `.load` a hit, every look-up recorded — and `(env', t)` agrees with `(env, s)` on every entry it
+records (same file / directory content, same cached value or absent in both), then re-evaluating it
+under `(env', t)` is a tracked hit-only run with the same outcome and the same record. -/
+theorem C05_read_set_determinacy (env env' : Env) (hS : env.Steady) (hS' : env'.Steady) (hL : SameLoaders env env')
+    (fuel : Nat) (s t : St) (key : Key) (hh : reloadHit env fuel s key = true)
+    (hag : ∀ d ∈ reloadDeps env fuel s key, AgreeOn env env' s t d) :
+    reloadHit env' fuel t key = true ∧ reloadOut env' fuel t key = reloadOut env fuel s key ∧
+    reloadDeps env' fuel t key = reloadDeps env fuel s key ∧
+    (reloadEval env fuel s key).1.map = s.map ∧ (reloadEval env' fuel t key).1.map = t.map := by
+  obtain ⟨h1, h2, h3⟩ := reloadEval_readset hS hS' hL fuel s t key hh hag
+  exact ⟨h1, h2, h3, reloadHit_map hh, reloadHit_map h1⟩
+
+/-- **Processing one key of a pass** keeps the invariant `PInv` (assets that are not pending are
+settled under the new source and read no pending asset; pending assets still have the dependencies
+the list was sorted with). -/
+theorem C05_pass_step (env' : Env) (hS' : env'.Steady) (fuel : Nat) (g0 : Graph) (k : Key) (rest : List Key)
+    (s : St) (r : RSt)
+    (hinv : PInv env' fuel g0 (k :: rest) s r.graph) (hdead : r.dead = false)
+    (hnd : (k :: rest).Nodup) (hord : DepsFirst g0 (k :: rest))
+    (hmiss : NoMissInPass env' fuel [⟨k, rest, s, r⟩])
+    (hret : ReloadsReturn env' fuel [⟨k, rest, s, r⟩])
+    (hrewire : NoRewireOntoPending env' fuel [⟨k, rest, s, r⟩]) :
+    PInv env' fuel g0 rest (reloadAll env' fuel [k] (s, r)).1 (reloadAll env' fuel [k] (s, r)).2.graph ∧
+    (reloadAll env' fuel [k] (s, r)).2.dead = false ∧ (reloadAll env' fuel [k] (s, r)).1.out = s.out :=
+  pinv_step hS' hinv hdead hnd hord (hmiss _ List.mem_cons_self) (hret _ List.mem_cons_self)
+    (hrewire _ List.mem_cons_self)
+
+
 /-- **One update pass converges** (partial: the two situations in which the full statement is
 false are excluded by the named hypotheses `hmiss` and `hrewire`).
 
@@ -216,6 +254,52 @@ theorem C05_pass_keeps_graphOK (env : Env) (fuel : Nat) (s : St) (r : RSt) (h : 
   · exact h
   · exact C05_reloadAll_keeps_graphOK env fuel _ s _ h
 
+theorem C05_handleEvents_keeps_graphOK (env : Env) (fuel : Nat) (s : St) (r : RSt) (evs : List Dep)
+    (h : GraphOK r.graph) : GraphOK (handleEvents env fuel s r evs).2.graph := by
+  unfold handleEvents
+  split
+  · exact h
+  · simp only []
+    split
+    · exact C05_processMsgs_graphOK _ _ (C05_pass_keeps_graphOK _ _ _ _ (C05_processMsgs_graphOK s r h))
+    · exact C05_processMsgs_graphOK s r h
+
+theorem C05_hotReload_keeps_graphOK (env : Env) (fuel : Nat) (s : St) (r : RSt)
+    (h : GraphOK r.graph) : GraphOK (hotReload env fuel s r).2.graph := by
+  unfold hotReload
+  split
+  · exact h
+  · simp only []
+    split
+    · exact C05_processMsgs_graphOK s r h
+    · exact C05_processMsgs_graphOK _ _ (C05_pass_keeps_graphOK _ _ _ _ (C05_processMsgs_graphOK s r h))
+
+theorem C05_enhance_keeps_graphOK (env : Env) (fuel : Nat) (s : St) (r : RSt)
+    (h : GraphOK r.graph) : GraphOK (enhance env fuel s r).2.graph := by
+  unfold enhance
+  split
+  · exact h
+  · simp only []
+    split
+    · exact C05_processMsgs_graphOK s r h
+    · exact C05_processMsgs_graphOK _ _ (C05_pass_keeps_graphOK _ _ _ _ (C05_processMsgs_graphOK s r h))
+
+/-- **The dependency index is exact in every reachable state** of a cache with its reloader. -/
+theorem C05_history_keeps_graphOK (fuel : Nat) (h : List (Env × HOp)) (x : St × RSt)
+    (hx : GraphOK x.2.graph) : GraphOK (runH fuel h x).2.graph := by
+  induction h generalizing x with
+  | nil => exact hx
+  | cons e es ih =>
+    simp only [runH]
+    apply ih
+    obtain ⟨env, op⟩ := e
+    obtain ⟨s, r⟩ := x
+    cases op with
+    | api op => exact hx
+    | notify evs => exact C05_handleEvents_keeps_graphOK env fuel s r evs hx
+    | hotReload => exact C05_hotReload_keeps_graphOK env fuel s r hx
+    | enhance => exact C05_enhance_keeps_graphOK env fuel s r hx
+
 /-- **`hot_reload()` converges** (local mode, no pending `AddAsset` messages): the same statement for
 the whole request — drain the messages, run the pass, drain the messages the pass produced (none,
 under `hmiss`). The hypotheses are those of `C05_pass_converges_partial`. -/
@@ -298,6 +382,16 @@ theorem exChain_graphOK : GraphOK exChain.graph :=
   C05_insert_keeps_inverse _ (C05_insert_keeps_inverse [] graphOK_nil (.asset ke) [.file "e" "s"]) (.asset kb)
     [.file "b" "s", .asset ke]
 
+theorem exEnv_unchanged_e (b e e' : List UInt8) :
+    ∀ id ext, Dep.file id ext ∉ [Dep.file "e" "s"] → (exEnv b e').read 0 id ext = (exEnv b e).read 0 id ext := by
+  intro id ext h
+  simp only [exEnv]
+  split
+  · rfl
+  · split
+    · rename_i h2; exact absurd (by rw [h2.1, h2.2]; exact List.mem_singleton.mpr rfl) h
+    · rfl
+
 /-- **Non-vacuity** of `C05_pass_converges_partial`: the chain `b → e`, `e.s` edited from `10` to
 `20`: all hypotheses hold; the computed pass gives `e = 20`, `b = 21`. -/
 example :
@@ -308,14 +402,7 @@ example :
   C05_pass_converges_partial (exEnv [1, 0] [10]) (exEnv [1, 0] [20]) 10 (exSt 11 10) exChain [.file "e" "s"]
     (rank := exRank) (exEnv_steady _ _) (exEnv_steady _ _) (exEnv_same _ _ _ _)
     (settled_of_check (by decide)) exChain_graphOK (rank_of_entries (by decide)) rfl (by decide)
-    (by
-      intro id ext h
-      simp only [exEnv]
-      split
-      · rfl
-      · split
-        · rename_i h2; exact absurd (by rw [h2.1, h2.2]; exact List.mem_singleton.mpr rfl) h
-        · rfl)
+    (exEnv_unchanged_e _ _ _)
     (fun _ _ => rfl) (by decide)
     (noMiss_of_check (by decide)) (reloadsReturn_of_check (by decide)) (noRewire_of_check (by decide))
 
@@ -325,6 +412,28 @@ example :
     (runUpdate (exEnv [1, 0] [20]) 10 (exSt 11 10) exChain).1.lookup kb = some ⟨.int 21, true, 1, true, 1⟩ ∧
     settledB (exEnv [1, 0] [20]) 10 (runUpdate (exEnv [1, 0] [20]) 10 (exSt 11 10) exChain).1
       (runUpdate (exEnv [1, 0] [20]) 10 (exSt 11 10) exChain).2.graph = true := by decide
+
+/-- the same starting from a real history: `load b` (which loads `e`), `hot_reload` (drains the two
+registrations), then `e.s` is edited and the event is handed to the reloader -/
+def exHist : St × RSt :=
+  runH 10 [(exEnv [1, 0] [10], .api (.load kb)), (exEnv [1, 0] [10], .hotReload),
+    (exEnv [1, 0] [20], .notify [.file "e" "s"])] ({}, {})
+
+example :
+    Settled (exEnv [1, 0] [20]) 10 (hotReload (exEnv [1, 0] [20]) 10 exHist.1 exHist.2).1
+      (hotReload (exEnv [1, 0] [20]) 10 exHist.1 exHist.2).2.graph ∧
+    (hotReload (exEnv [1, 0] [20]) 10 exHist.1 exHist.2).2.dead = false :=
+  C05_hot_reload_converges_partial (exEnv [1, 0] [10]) (exEnv [1, 0] [20]) 10 exHist.1 exHist.2 [.file "e" "s"]
+    (rank := exRank) (exEnv_steady _ _) (exEnv_steady _ _) (exEnv_same _ _ _ _)
+    (settled_of_check (by decide)) (C05_history_keeps_graphOK 10 _ _ graphOK_nil) (rank_of_entries (by decide))
+    (by decide) (by decide) (by decide) (by decide)
+    (fun id ext h => exEnv_unchanged_e _ _ _ id ext h)
+    (fun _ _ => rfl) (by decide)
+    (noMiss_of_check (by decide)) (reloadsReturn_of_check (by decide)) (noRewire_of_check (by decide))
+
+example :
+    (hotReload (exEnv [1, 0] [20]) 10 exHist.1 exHist.2).1.lookup ke = some ⟨.int 20, true, 1, true, 0⟩ ∧
+    (hotReload (exEnv [1, 0] [20]) 10 exHist.1 exHist.2).1.lookup kb = some ⟨.int 21, true, 1, true, 1⟩ := by decide
 
 /-- `b = 1`, `e = 10`, both loaded; both files have been edited, the events arrived as `e.s`, `b.s`
 (the sort then yields `b` before `e`) -/
